@@ -25,10 +25,10 @@ SWITCH = {
     "F1": "ackOnReceipt", "F2": "noLostDespawnHidden", "F3": "staleRemovalOnDespawn",
     "F4": "periodicAckSwallow", "F8": "refBeforeSpawnUnmarked", "F9": "removalOverwrite",
     "F11": "emptyMutateWithGraphs", "F14": "whiteReAddForgetsLost", "F18": "periodicBumpSwallow",
-    "F19": "ackDiscarded", "F21": "lateJoinerMissesEmpty",
+    "F19": "ackDiscarded", "F21": "lateJoinerMissesEmpty", "F15": "staleBuffersOnRestart",
 }
 ALL_SWITCHES = ["removalOverwrite", "staleRemovalOnDespawn", "noLostDespawnHidden", "whiteReAddForgetsLost",
-                "ackOnReceipt", "periodicAckSwallow", "periodicBumpSwallow", "ackDiscarded", "lateJoinerMissesEmpty",
+                "ackOnReceipt", "periodicAckSwallow", "periodicBumpSwallow", "ackDiscarded", "lateJoinerMissesEmpty", "staleBuffersOnRestart",
                 "emptyMutateWithGraphs", "refBeforeSpawnUnmarked", "seedLeakHidden", "seedEvNoQueue", "seedEvNoExclude",
                 "seedEvUnauth"]
 
@@ -130,13 +130,13 @@ def tla_set(xs):
 
 def mc_consts(ents=("e1",), clients=("c1",), policy="all", track=False, impl="ImplAsDesigned", ops=3, ticks=3,
               idle=1, cframes=3, comps=("A", "B"), kinds=("spawn", "insert", "mutate", "remove"), settle=3,
-              emit=False, graphs=0):
+              emit=False, graphs=0, recon=0):
     return {
         "Ent": tla_set(ents), "Client": tla_set(clients), "Policy": f'"{policy}"',
         "Track": "TRUE" if track else "FALSE", "Timeout": "1000", "Impl": impl,
         "MaxOps": ops, "MaxTicks": ticks, "MaxIdle": idle, "MaxCliFrames": cframes,
         "OpComps": tla_set(comps), "OpKinds": tla_set(kinds), "SettleRounds": settle,
-        "Emit": "TRUE" if emit else "FALSE", "Graphs": graphs,
+        "Emit": "TRUE" if emit else "FALSE", "Graphs": graphs, "MaxRecon": recon,
     }
 
 
@@ -280,14 +280,15 @@ class CoreCheck:
         return r
 
     # ---- 3. trace validation of real executions
-    def validate_profile(self, profile, runs, monitors_only=False):
+    def validate_profile(self, profile, runs, monitors_only=False, extra_monitors=(), extra_fields=()):
         trace = os.path.join(self.wd, f"{profile}.ndjson")
         lines, panics = simtrace(profile, runs, self.seed, trace)
         diffs, viols, done = validate_trace(self.sd, trace, self.wd)
         self.traces += runs
         self.trace_events += lines
-        mine_v = [x for x in viols if self.pid in MONITOR_PROPS.get(x["prop"], [])]
-        mine_d = [] if monitors_only else [x for x in diffs if self.pid in props_of_diff(x)]
+        mine_v = [x for x in viols if self.pid in MONITOR_PROPS.get(x["prop"], []) or x["prop"] in extra_monitors]
+        mine_d = [] if monitors_only else [x for x in diffs if self.pid in props_of_diff(x)
+                                           or diff_field(x).rsplit(".", 1)[0] in extra_fields]
         other = len(viols) - len(mine_v) + len(diffs) - len(mine_d)
         self.profiles[profile] = {"runs": runs, "events": lines, "diffs": done["diffs"], "viols": done["viols"],
                                   "attributed_to_this_property": len(mine_v) + len(mine_d), "panics": panics}
